@@ -20,3 +20,7 @@ CHECKS['C16'] = ('model_checking',
     'explicit enumeration of complete rule-graph families (all 2-rule graphs over {calls, t, [t], {t}, [call]} with 1-2 item sequences; 3-rule families; 3-item sequences with call bases) built from the real model classes, each checked against an independent nullable/left-call/cycle analysis (GrammarError iff left cycle, flags of non-cyclic rules) and parsed from every rule on a fixed input battery under a recursion ceiling and watchdog',
     'trusted: the independent analysis in mc/checks/c16.py; graphs with a call to a nullable rule in a left prefix are outside the property and skipped (counted)',
     'exhaustive enumeration of a finite program family against an independent reference analysis')
+CHECKS['C02'] = ('model_checking',
+    'differential conformance by bounded exhaustive enumeration: every expression tree of the C01 alphabet (<=3 nodes quick, extended 4-node families thorough) and 22 feature grammars (directives, keywords, params, Python-keyword names, upper-case rules, literals, left recursion, based/include/override rules, constants, meta, skip-to, eol, joins) x all inputs up to a length bound x 5 parse-time settings x {no semantics, tagging, identity}; generated source must compile, load and agree with model.parse on accept/reject and AST',
+    'trusted: the in-memory model as reference (itself checked by C01); grammars the code generator refuses by design (repetition of a nullable body) are counted and skipped',
+    'exhaustive enumeration of programs x inputs x configurations, differential between two implementations')
